@@ -1154,4 +1154,85 @@ theorem relay_cl_exact (cfg : Cfg) (d1 d2 d3 : UInt8) (reason : Bytes)
   · simp [h1SendHeaders, f1]
 
 
+/-! ## failure / truncation of the backend stream (repaired code) -/
+
+/-- response start for a state lighttpd answers itself with an error document (HTTP/1.x) -/
+theorem conStep_errdoc (cfg : Cfg) (st1 : St) (hv : cfg.ver ≤ 1) (hc : st1.cstate = .handle)
+    (ho : st1.open_ = false) (hh : st1.handler = false) (h4 : 400 ≤ st1.status) (h6 : st1.status < 600) :
+    (conStep cfg st1).status = st1.status ∧ (conStep cfg st1).cstate = .done ∧
+    (conStep cfg st1).keepAlive = st1.keepAlive ∧
+    ∃ fields, (conStep cfg st1).evs = pushW st1.evs
+      (h1StatusLine cfg st1.status ++ fields ++ crlf ++ crlf ++ (if cfg.head then [] else errorPage st1.status)) := by
+  obtain ⟨w1, w2, w3, w4, w5, w6, w7⟩ := writePrepare_errdoc cfg st1 hh h4 h6
+  have hstart : conStep cfg st1 = startResponse cfg st1 := by
+    unfold conStep
+    simp [hc, handlerStarts, subrequestWaits, ho]
+  rw [hstart]
+  obtain ⟨r1, r2, r3, r4⟩ := startResponse_h1_finished cfg st1 hv (by omega) w7
+  refine ⟨by rw [r2, w1], r1, by rw [r3, w2], ⟨h1FieldLines (h1HeaderSet cfg (writePrepare cfg st1)), ?_⟩⟩
+  rw [r4, w1, w3, w4]
+
+theorem backendIncomplete_proj (st : St) :
+    (backendIncomplete st).status = 502 ∧ (backendIncomplete st).handler = false ∧
+    (backendIncomplete st).cstate = st.cstate ∧ (backendIncomplete st).keepAlive = st.keepAlive ∧
+    (backendIncomplete st).evs = st.evs ∧ (backendIncomplete st).open_ = st.open_ := by
+  simp [backendIncomplete, bodyClear]
+
+/-- a backend failure event: reset / socket error, or FastCGI end of stream without END_REQUEST -/
+def FailEnd (cfg : Cfg) (st : St) (e : End) : Prop :=
+  e = .rst ∨ e = .err ∨ (cfg.be = .fcgi ∧ (e = .eof ∨ e = .hup) ∧ st.fcgi.ended = false)
+
+theorem FailEnd.ne_none {cfg : Cfg} {st : St} {e : End} (h : FailEnd cfg st e) : e ≠ .none := by
+  rcases h with h | h | ⟨_, h | h, _⟩ <;> simp [h]
+
+theorem gwRecvEnd_fail (cfg : Cfg) (st : St) (e : End) (hs : st.started = true) (he : FailEnd cfg st e) :
+    gwRecvEnd cfg st e = gwBackendError cfg st := by
+  rcases he with h | h | ⟨hb, h | h, hfe⟩
+  · subst h; rfl
+  · subst h; rfl
+  · subst h; simp [gwRecvEnd, hb, hfe]
+  · subst h; simp [gwRecvEnd, hb, hfe, hs]
+
+theorem gwBackendError_unsent (cfg : Cfg) (st : St) (hs : st.started = true) (hn : st.hdrSent = false) :
+    gwBackendError cfg st = { (backendIncomplete st) with open_ := false } := by
+  simp [gwBackendError, backendError, hs, hn, gwClose, backendIncomplete]
+
+theorem gwBackendError_sent (cfg : Cfg) (st : St) (hs : st.started = true) (hn : st.hdrSent = true) :
+    gwBackendError cfg st =
+      { st with open_ := false, handler := false, keepAlive := false, finished := true,
+                cerr := st.cerr || decide (cfg.ver ≥ 2) } := by
+  simp [gwBackendError, backendError, hs, hn, gwClose, backendAbort]
+
+
+theorem chunkClose_noappend (st : St) (h : st.sendChunked = true → st.dc.isSome = true) :
+    (chunkClose st).wq = st.wq ∧ (chunkClose st).evs = st.evs ∧ (chunkClose st).cstate = st.cstate ∧
+    (chunkClose st).open_ = st.open_ ∧ (chunkClose st).cerr = st.cerr ∧
+    ((chunkClose st).keepAlive = true → st.keepAlive = true) := by
+  unfold chunkClose
+  by_cases hs : st.sendChunked = true
+  · have := h hs
+    simp only [hs, Bool.not_true, Bool.false_eq_true, if_false, this, if_true]
+    split <;> simp
+  · simp [hs]
+
+
+theorem backendDone_truncated_unsent (cfg : Cfg) (st : St) (hc : st.cstate = .handle) (hs : st.started = true)
+    (hf : st.finished = false) (hsent : st.hdrSent = false) (ht : bodyTruncated st = true) :
+    backendDone cfg st = backendIncomplete st := by
+  unfold backendDone
+  rw [if_neg (by simp [hc]), if_neg (by simp [hs]), if_pos (by simp [hf]), if_pos (by simp [ht, hsent])]
+
+theorem backendDone_truncated_sent (cfg : Cfg) (st : St) (hc : st.cstate = .write)
+    (hf : st.finished = false) (hsent : st.hdrSent = true) (ht : bodyTruncated st = true) :
+    backendDone cfg st =
+      { (if cfg.ver = 1 then chunkClose (backendAbort cfg st) else backendAbort cfg st) with finished := true } := by
+  unfold backendDone
+  rw [if_neg (by simp [hc]), if_neg (by simp [hc]), if_pos (by simp [hf]), if_neg (by simp [hsent])]
+  simp only [ht, if_true]
+
+theorem gwClose_handler (cfg : Cfg) (st : St) (hh : st.handler = true) :
+    gwClose cfg st = backendDone cfg { st with open_ := false } := by
+  unfold gwClose
+  simp only [hh, if_true]
+
 end LtVerif.BeResp
